@@ -7,6 +7,7 @@ import (
 	"go/constant"
 	"go/token"
 	"go/types"
+	"regexp"
 	"sort"
 	"strings"
 
@@ -117,6 +118,7 @@ func checkC05(c *Ctx) {
 	c.rule("C05.R1", "containment: the function that runs the lexer/parser and walks the tree installs, unconditionally and before them, a deferred recover that stores a non-nil error into its named result on every path and never re-panics; only that function drives the recognisers", 3)
 	c.rule("C05.R2", "syntax errors are collected: a module error listener whose SyntaxError records on every path is added to lexer and parser before parsing; the walk and every nil-error return are entailed by `nothing recorded`; mixed tab/space indentation is detected in either order", 6)
 	c.rule("C05.R3", "the start node index Nodes[0] is guarded (compiler bounds report + guard entailment)", 1)
+	c.rule("C05.R6", "the whole input is parsed: the grammar's start rule ends with EOF, or every nil-error return of the driver is entailed by `the token after the parse is EOF` (a start rule without EOF stops silently in front of what it cannot derive)", 1)
 	c.rule("C05.R4", "error discipline: no error result of a call is dropped in NewDialogueRunner, FromReaders, FromReader, NewRNG (exceptions named)", 5)
 	c.rule("C05.R5", "load-path panic inventory: explicit panics, non-constant make sizes and unproved bounds checks outside the recover boundary are discharged; the base-function signatures pass the gate statically", 6)
 	if !m.ok(c, "C05") || !lx.ok(c, "C05") {
@@ -310,6 +312,7 @@ func checkC05(c *Ctx) {
 
 	// ----- R2
 	c05Listener(c, driver, dialogueCall, walkCall)
+	c05WholeInput(c, driver, dialogueCall)
 	c05MixedIndent(c, lx)
 
 	// ----- R3 and the load-path part of R5: bounds
@@ -894,7 +897,10 @@ func c05BaseSignatures(c *Ctx, m *runnerModel) {
 		}
 		res := sig.Results()
 		isErr := func(t types.Type) bool { return typeStr(t) == "error" }
-		isVal := func(t types.Type) bool { _, ok := kindCategory[kindOf(t)]; return ok && !strings.HasPrefix(kindOf(t), "Uint") }
+		isVal := func(t types.Type) bool {
+			_, ok := kindCategory[kindOf(t)]
+			return ok && !strings.HasPrefix(kindOf(t), "Uint")
+		}
 		switch res.Len() {
 		case 0:
 		case 1:
@@ -909,5 +915,71 @@ func c05BaseSignatures(c *Ctx, m *runnerModel) {
 			bad = append(bad, itoa(res.Len())+" results")
 		}
 		c.ob("C05.R5", "base function "+name, w.Pos(v.Pos()), len(bad) == 0, map[bool]string{true: "signature " + typeStr(sig) + " passes the registration gate", false: "signature " + typeStr(sig) + " is refused by the registration gate (" + strings.Join(bad, ", ") + "): NewDialogueRunner panics"}[len(bad) == 0])
+	}
+}
+
+// c05WholeInput: C05.R6. ANTLR parses a prefix: a start rule that does not end with EOF returns, with no syntax error, as
+// soon as the next token cannot continue it. Either the grammar closes the start rule with EOF, or the driver compares
+// the next token with EOF and reports what is left over.
+func c05WholeInput(c *Ctx, driver *Func, startCall *ast.CallExpr) {
+	w := c.W
+	g := w.grammar()
+	info := driver.Pkg.TypesInfo
+	// the start rule: the parser method called
+	rule := ""
+	if sel, ok := unparen(startCall.Fun).(*ast.SelectorExpr); ok {
+		name := sel.Sel.Name
+		rule = strings.ToLower(name[:1]) + name[1:]
+	}
+	body, ok := g.parserRules[rule]
+	if !ok {
+		c.undecided("C05.R6", "the grammar rule of the start call "+exprStr(startCall.Fun)+" was not found")
+		return
+	}
+	if regexp.MustCompile(`\bEOF\s*;?\s*$`).MatchString(strings.TrimSpace(body)) {
+		c.ob("C05.R6", "grammar/"+rule, "-", true, "the start rule ends with EOF: the parser reports whatever it cannot derive")
+		return
+	}
+	// comparisons with the EOF token type in the driver
+	e := w.ent(driver)
+	var tests []*ast.BinaryExpr
+	walkNoLit(driver.Body, func(n ast.Node) bool {
+		b, ok := n.(*ast.BinaryExpr)
+		if !ok || (b.Op != token.EQL && b.Op != token.NEQ) || b.Pos() < startCall.End() {
+			return true
+		}
+		for _, side := range []ast.Expr{b.X, b.Y} {
+			if sel, ok := unparen(side).(*ast.SelectorExpr); ok && sel.Sel.Name == "TokenEOF" {
+				tests = append(tests, b)
+			}
+		}
+		return true
+	})
+	n := 0
+	walkNoLit(driver.Body, func(q ast.Node) bool {
+		ret, ok := q.(*ast.ReturnStmt)
+		if !ok || len(ret.Results) != 2 || !isNilExpr(info, ret.Results[1]) || ret.Pos() < startCall.Pos() {
+			return true
+		}
+		n++
+		proved, how := false, "no comparison of the next token with EOF follows the parse"
+		for _, t := range tests {
+			at := site{pos: ret.Pos(), anc: ret}
+			var goal Formula = e.cond(keyCtx{e: e, s: &at}, t, 0)
+			if t.Op == token.NEQ {
+				goal = Not{goal}
+			}
+			if ok, h := e.Prove(ret, goal); ok {
+				proved, how = true, "entailed: "+exprStr(t.X)+" == "+exprStr(t.Y)+" ("+h+")"
+				break
+			} else {
+				how = "the test " + exprStr(t) + " does not dominate this return: " + h
+			}
+		}
+		c.ob("C05.R6", driver.Name+"/whole-input#"+itoa(n), w.Pos(ret.Pos()), proved, map[bool]string{true: "a dialogue is returned only when the parser consumed the whole input: " + how, false: "grammar rule '" + rule + "' does not end with EOF and a dialogue can be returned without the rest of the input having been looked at (" + how + "): a valid node followed by something that is not a node — a body without header — loads silently as another script"}[proved])
+		return true
+	})
+	if n == 0 {
+		c.undecided("C05.R6", "no nil-error return after the parse in "+driver.Name)
 	}
 }
